@@ -32,7 +32,8 @@ REQUIRED = ["stop_on_delay", "nested_warps", "overlapping_warps", "touching_warp
             "stop_at_warp_start", "stop_inside_warp", "delay_inside_warp", "pause_at_warp_end",
             "bpm_change_inside_warp", "pause_at_beat_0", "negative_beat_probe", "corpus", "three_warps_one_union",
             "different_kinds_on_adjacent_ticks", "warp_one_tick_after_a_stop", "pause_seconds_equal_a_bpm_value",
-            "pause_boundary_at_time_zero", "timing_read_from_sm_freezes"]
+            "pause_boundary_at_time_zero", "timing_read_from_sm_freezes", "values_in_exponent_or_plus_sign_spelling",
+            "chart_with_empty_timing_properties_named"]
 TOL = Fraction(1, 10**9)
 
 
@@ -108,6 +109,8 @@ def check(ctx, case):
         ctx.feat("corpus")
     if timing["stops"] and G.style_of(timing) == "sm-freezes":
         ctx.feat("timing_read_from_sm_freezes")
+    for v in G.variant_of(timing):
+        ctx.feat(v)
     rng = random.Random(digest64(timing))
     tl = G.build_timeline(timing)
     eng = G.build_engine(timing)
